@@ -73,15 +73,15 @@ theorem timingLoad_eq_grouped (k : LKind) (dst ls : Nat) (m : Nat → Nat) (accs
 
 /-! stores -/
 
-theorem mem_storeW {ls cnt : Nat} {act : List (Nat × Nat)} {data : Nat → Nat → Nat} {w : Wr}
-    (h : w ∈ storeW ls cnt act data) :
-    ∃ x ∈ accesses act cnt, ∃ b, b < 4 ∧ w.key = lineOf ls x.addr ∧ w.cell = (0, x.addr + b) := by
+theorem mem_storeW {ls bw cnt : Nat} {act : List (Nat × Nat)} {data : Nat → Nat → Nat} {w : Wr}
+    (h : w ∈ storeW ls bw cnt act data) :
+    ∃ x ∈ accesses act cnt, ∃ b, b < bw ∧ w.key = lineOf ls x.addr ∧ w.cell = (0, x.addr + b) := by
   simp only [storeW, List.mem_flatMap, List.mem_map, List.mem_range] at h
   obtain ⟨x, hx, b, hb, rfl⟩ := h
   exact ⟨x, hx, b, hb, rfl, rfl⟩
 
-theorem store_key_of_cell {ls cnt : Nat} {act : List (Nat × Nat)} {data : Nat → Nat → Nat} (hls : 0 < ls)
-    (hns : storeStraddles ls cnt act = false) {w : Wr} (h : w ∈ storeW ls cnt act data) :
+theorem store_key_of_cell {ls bw cnt : Nat} {act : List (Nat × Nat)} {data : Nat → Nat → Nat} (hls : 0 < ls)
+    (hns : storeStraddles ls bw cnt act = false) {w : Wr} (h : w ∈ storeW ls bw cnt act data) :
     w.key = lineOf ls w.cell.2 := by
   obtain ⟨x, hx, b, hb, hk, hc⟩ := mem_storeW h
   simp only [storeStraddles, List.any_eq_false] at hns
